@@ -239,7 +239,9 @@ def r7_value_decoders(ctx):
     from ..expr import operand_ty
     prog = ctx.prog
     float_casts, borrowed, helpers = [], [], 0
-    for k, f in sorted(prog.fns.items()):
+    # (a decoder that is new to the reviewed tree has been spliced into the generated code that calls it: it is
+    # scanned from its own body, kept aside by the inliner)
+    for k, f in sorted(list(prog.fns.items()) + list(getattr(prog, "helper_bodies", {}).items())):
         if not k.startswith(API) or f.get("test") or "Deserialize>::deserialize" in k or "Visitor" in k or "Serialize>::serialize" in k:
             continue
         helpers += 1
